@@ -235,6 +235,8 @@ impl<'a> LuaParser<'a> {
 
         let mut next_index = self.token_index + 1;
         self.skip_trivia(&mut next_index);
+        #[cfg(emmyluals_emmylua_analyzer_rust_verif)]
+        crate::verif_depth::add_pump_steps(2 * (next_index - self.token_index));
         self.parse_trivia_tokens(next_index);
         self.token_index = next_index;
 
@@ -249,6 +251,8 @@ impl<'a> LuaParser<'a> {
     pub fn peek_next_token(&self) -> LuaTokenKind {
         let mut next_index = self.token_index + 1;
         self.skip_trivia(&mut next_index);
+        #[cfg(emmyluals_emmylua_analyzer_rust_verif)]
+        crate::verif_depth::add_pump_steps(next_index - self.token_index);
 
         if next_index >= self.tokens.len() {
             LuaTokenKind::None
@@ -263,6 +267,8 @@ impl<'a> LuaParser<'a> {
             index += 1;
             self.skip_trivia(&mut index);
         }
+        #[cfg(emmyluals_emmylua_analyzer_rust_verif)]
+        crate::verif_depth::add_pump_steps(index - self.token_index);
         if index >= self.tokens.len() {
             LuaTokenKind::None
         } else {
@@ -283,6 +289,8 @@ impl<'a> LuaParser<'a> {
         }
 
         self.nesting_level += 1;
+        #[cfg(emmyluals_emmylua_analyzer_rust_verif)]
+        crate::verif_depth::note_level(self.nesting_level);
         true
     }
 
